@@ -911,6 +911,10 @@ func emitAgg(w *world, s searchSpec, si, ti, ai int, a aggSpec, t *tree, qpr *se
 	// documents as this aggregation sees them
 	leafCoq := make([]string, len(w.fracs))
 	nsel, nlive := 0, 0
+	// a time series with group in which a selected document has the group token but not the field: the code
+	// keeps that per-group not-exists count in bin (MID 0, group), which Aggregate(SkipWithoutTimestamp) drops.
+	// Kept as its own class so that this behaviour can be classified separately.
+	tsGroupNE := false
 	for i, f := range w.fracs {
 		parts := make([]string, len(f))
 		anySel := false
@@ -929,6 +933,9 @@ func emitAgg(w *world, s searchSpec, si, ti, ai int, a aggSpec, t *tree, qpr *se
 			if selectedDoc(d, s) {
 				nsel++
 				anySel = true
+				if a.group != "" && a.field != "" && a.interval > 0 && g != "None" && fv == "None" {
+					tsGroupNE = true
+				}
 			}
 			parts[j] = fmt.Sprintf("Doc %d %s %s %s", d.mid, casefile.Bool(s.all || d.f["m"] == "1"), g, fv)
 		}
@@ -993,6 +1000,9 @@ func emitAgg(w *world, s searchSpec, si, ti, ai int, a aggSpec, t *tree, qpr *se
 			implBuckets = append(implBuckets, map[string]any{"name": b.Name, "mid": uint64(b.MID), "value_bits": math.Float64bits(b.Value),
 				"value_is_nan": math.IsNaN(b.Value), "quantile_bits": qbits, "not_exists": b.NotExists})
 		}
+	}
+	if tsGroupNE {
+		class = "ts-group-notexists"
 	}
 	term := fmt.Sprintf("CAgg %d %s %s %s (IOut [%s] %s [%s] %s)", sc.scale, casefile.Bool(w.exact), caseTree(w, t, live, leafCoq), qcoq,
 		strings.Join(bparts, ";\n     "), zc(agg.NotExists), strings.Join(kparts, ";\n     "), zc(aggRes.NotExists))
@@ -1082,7 +1092,12 @@ func main() {
 	tier := flag.String("tier", "quick", "")
 	out := flag.String("out", "", "")
 	replay := flag.String("replay", "", "")
+	probe := flag.Bool("probe", false, "run the ts-group-notexists scenario on the real code and print it")
 	flag.Parse()
+	if *probe {
+		runProbe()
+		return
+	}
 	if *out == "" {
 		fmt.Fprintln(os.Stderr, "need -out")
 		os.Exit(2)
@@ -1240,4 +1255,82 @@ func emitKeys(seed uint64, tier string) *result {
 			map[string]any{"key_hex": fmt.Sprintf("%x", key), "back_mid": uint64(back.MID), "back_token_hex": fmt.Sprintf("%x", back.Token)}})
 	}
 	return res
+}
+
+// ---------------------------------------------------------------- probe: per-group not-exists in a time series
+
+// runProbe reproduces, on real fractions through the real search path, what a time-series aggregation
+// with group reports for documents that have the group token but not the field.
+func runProbe() {
+	type pd struct {
+		mid, rid uint64
+		toks     []string
+	}
+	scen := []struct {
+		name string
+		docs [][]pd // per fraction
+	}{
+		{"A: one matching document g:api without v", [][]pd{{{1000500, 1, []string{"m:1", "g:api"}}}}},
+		{"B: two fractions: {g:api without v} and {g:api v:5, g:api without v, v:7 without g}", [][]pd{
+			{{1000500, 1, []string{"m:1", "g:api"}}},
+			{{1000700, 2, []string{"m:1", "g:api", "v:5"}}, {1001200, 3, []string{"m:1", "g:api"}}, {1001300, 4, []string{"m:1", "v:7"}}}}},
+	}
+	for _, sc := range scen {
+		dir, _ := os.MkdirTemp("", "verif-hC06-probe-")
+		fm, err := fracbuild.NewFM(dir, nil)
+		if err != nil {
+			panic(err)
+		}
+		for _, f := range sc.docs {
+			var docs []fracbuild.Doc
+			for _, d := range f {
+				docs = append(docs, fracbuild.Doc{MID: d.mid, RID: d.rid, Body: []byte(`{}`), Tokens: d.toks})
+			}
+			if err := fracbuild.Append(fm, docs); err != nil {
+				panic(err)
+			}
+			fracbuild.Seal(fm)
+		}
+		for _, interval := range []int64{1000, 0} {
+			q := fracbuild.Query{Text: "m:1", Mapping: mapping, From: 0, To: 1 << 40,
+				AggQ: []processor.AggQuery{{Field: literal("v"), GroupBy: literal("g"), Func: seq.AggFuncAvg, Interval: interval}}}
+			qpr, err := fracbuild.Search(fracbuild.Fracs(fm), q, 0)
+			fmt.Printf("SCENARIO %s\n  request: query=%q from=0 to=2^40 agg={func:avg field:v group_by:g interval:%d}\n", sc.name, q.Text, interval)
+			for i, f := range sc.docs {
+				for _, d := range f {
+					fmt.Printf("    fraction %d doc mid=%d rid=%d tokens=%v\n", i, d.mid, d.rid, d.toks)
+				}
+			}
+			if err != nil {
+				fmt.Println("  search error:", err)
+				continue
+			}
+			agg := qpr.Aggs[0]
+			type kb struct {
+				k seq.AggBin
+				h *seq.SamplesContainer
+			}
+			var bins []kb
+			for k, h := range agg.SamplesByBin {
+				bins = append(bins, kb{k, h})
+			}
+			sort.Slice(bins, func(i, j int) bool {
+				if bins[i].k.MID != bins[j].k.MID {
+					return bins[i].k.MID < bins[j].k.MID
+				}
+				return bins[i].k.Token < bins[j].k.Token
+			})
+			fmt.Printf("  QPR.Aggs[0]: NotExists=%d\n", agg.NotExists)
+			for _, b := range bins {
+				fmt.Printf("    bin (MID=%d, %q): Total=%d NotExists=%d Sum=%v\n", uint64(b.k.MID), b.k.Token, b.h.Total, b.h.NotExists, b.h.Sum)
+			}
+			res := qpr.Aggregate([]seq.AggregateArgs{{Func: seq.AggFuncAvg, SkipWithoutTimestamp: interval > 0}})[0]
+			fmt.Printf("  Aggregate(SkipWithoutTimestamp=%v): NotExists=%d, %d buckets\n", interval > 0, res.NotExists, len(res.Buckets))
+			for _, b := range res.Buckets {
+				fmt.Printf("    bucket name=%q ts=%d value=%v not_exists=%d\n", b.Name, uint64(b.MID), b.Value, b.NotExists)
+			}
+		}
+		fracbuild.Close(fm)
+		os.RemoveAll(dir)
+	}
 }
